@@ -202,6 +202,7 @@ def execute(plan):
             raise RuntimeError("reference encoder rejected a message the generator marked sendable: %r" % (e,))
     src_to_id = {json.loads(sends[i]["msg"])["source"]: i for i in sends}
     complete = {}
+    interleaved_ids = set()
     for c in o.conns:
         writes = [w[2] for w in c["written"]]
         if kind == "waveshare" and writes and writes[0][2:3] == b"\x02":
@@ -216,6 +217,8 @@ def execute(plan):
         seen = set()
         srcs = [b[0] for b in blocks if b[0] in src_to_id and src_to_id[b[0]] not in bad_ids]
         split = sorted({x for x in srcs if srcs.count(x) > 1})
+        for x in split:
+            interleaved_ids.add(src_to_id[x])
         if split:
             mid = src_to_id[split[0]]
             v.append(viol("C19.W1.interleave" + sfx, recs[mid]["start_ev"] if mid in recs else end_ev,
@@ -291,7 +294,7 @@ def execute(plan):
             if wrote:
                 v.append(viol("C19.W2.no_encoder" + sfx, end_ev, "client without an encoder wrote %d packet(s)" % len(wrote)))
         else:
-            missing = [i for i in ok_ids if i not in complete and i in recs]
+            missing = [i for i in ok_ids if i not in complete and i in recs and i not in interleaved_ids]
             if missing:
                 v.append(viol("C19.W1.content" + sfx, recs[missing[0]]["start_ev"], "send #%d (sendable) wrote nothing although "
                               "the connection was healthy" % missing[0]))
